@@ -146,6 +146,40 @@ def _npint_case(rng):
     return dict(spec=spec, sels=sels)
 
 
+def _bool_case(rng):
+    """ONE index list given as a boolean mask over the dimension (lat=(f.variables['lat'][:] > 20)): numpy's meaning is the list
+    of the True positions, the model is asked with that list"""
+    while True:
+        c = _case0(rng)
+        lists = [(k, s_) for k, s_ in c['sels'] if s_[0] == 'l']
+        if len(lists) == 1:
+            break
+    k, s_ = lists[0]
+    n = {d[0]: d[1] for d in c['spec']['dims']}[k]
+    s_[1] = sorted(set(i % n for i in s_[1])) if n else []
+    c['asbool'] = [k]
+    return c
+
+
+def _disk_case(rng):
+    """the same selection on the file saved to netCDF and opened again (its variables are handles on the disk file, read
+    through netCDF4's own indexing): dimensions and every cell as for the file in memory (oracle only, differential)"""
+    c = _case0(rng)
+    # negative strides of every phase
+    for k, s_ in c['sels']:
+        if s_[0] == 's' and rng.random() < 0.6:
+            s_[3] = rng.choice([-1, -2, -2, -3, 2])
+            if rng.random() < 0.5:
+                s_[1] = s_[2] = None
+    # netCDF keeps no length for an unlimited dimension that no variable has
+    used = set(k for v in c['spec']['vars'] for k in v['dims'])
+    for d in c['spec']['dims']:
+        if d[0] not in used:
+            d[2] = False
+    c['disk'] = True
+    return c
+
+
 def _legacy_case(rng):
     """the string front end slice_dim(f, 'dim,start[,stop[,stride]]')"""
     spec = pfile.gen_file(rng)
@@ -236,10 +270,22 @@ def gen(rng, tier):
     out += [_twostep_case(rng) for _ in range(n // 40)]
     out += [_ndpoints_case(rng) for _ in range(max(2, n // 100))]
     out += [_ioapi_case(rng) for _ in range(n // 8)]
+    out += [_bool_case(rng) for _ in range(n // 20)]
+    out += [_disk_case(rng) for _ in range(n // 20)]
+    # the string front end applied twice with one and the same definition (its own history text is on the file by then)
+    for _ in range(n // 40):
+        c = _legacy_case(rng)
+        c['twice'] = True
+        out.append(c)
     return out
 
 
 def _py(sel):
+    if sel[0] == 'b':
+        # a boolean mask over the dimension (length sel[2]): numpy's meaning is the list of the True positions
+        m = np.zeros(sel[2], dtype=bool)
+        m[list(sel[1])] = True
+        return m
     if sel[0] == 'i':
         return np.int64(sel[1]) if len(sel) > 2 else sel[1]
     if sel[0] == 's':
@@ -340,11 +386,24 @@ def impl(case):
         try:
             with lib.pnc_warnings():
                 o = slice_dim(f, case['text'])
-            return dict(obs=pfile.observe(o, spec=case['spec']))
+                extra = {}
+                if case.get('twice'):
+                    # again, with the same text; the method form twice is the reference
+                    o2 = slice_dim(o, case['text'])
+                    kw = {k: _py(s_) for k, s_ in case['sels']}
+                    r2 = pfile.build(case['spec']).sliceDimensions(**kw).sliceDimensions(**kw)
+                    extra['twice_diff'] = _vardiff(pfile.parse_obs(pfile.observe(r2, spec=case['spec'])),
+                                                   pfile.parse_obs(pfile.observe(o2, spec=case['spec'])))
+            return dict(obs=pfile.observe(o, spec=case['spec']), **extra)
         except Exception as e:
             return dict(err=type(e).__name__, msg=str(e)[:100])
     f = pfile.build(case['spec'])
     kw = {k: _py(s) for k, s in case['sels']}
+    for k in case.get('asbool', []):
+        n = {d[0]: d[1] for d in case['spec']['dims']}[k]
+        m = np.zeros(n, dtype=bool)
+        m[list(kw[k])] = True
+        kw[k] = m
     lab = case.get('labels')
     if lab:
         # a variable of fixed-width strings (station names, labels) along one dimension: outside the numeric model,
@@ -369,6 +428,21 @@ def impl(case):
             lo = o.variables.pop('LABELS')
             extra = dict(labels=[x.decode() if isinstance(x, bytes) else str(x) for x in np.asarray(lo[...]).ravel().tolist()],
                          labels_dims=list(lo.dimensions), labels_dtype=np.asarray(lo[...]).dtype.str[1:])
+        if case.get('disk'):
+            import os
+            import PseudoNetCDF as pnc
+            from .. import camx
+            path = os.path.join(camx.tmpdir(), 'c02d_%d_%d.nc' % (os.getpid(), np.random.randint(1 << 30)))
+            try:
+                pfile.build(case['spec']).save(path, format=pfile.disk_format(case['spec']), verbose=0).close()
+                fd = pnc.pncopen(path, format='netcdf')
+                with lib.pnc_warnings():
+                    od = fd.sliceDimensions(newdims=('POINTS',), **kw)
+                extra['disk_diff'] = _vardiff(pfile.parse_obs(pfile.observe(o, spec=case['spec'])),
+                                              pfile.parse_obs(pfile.observe(od, spec=case['spec'])))
+            finally:
+                if os.path.exists(path):
+                    os.remove(path)
         return dict(obs=pfile.observe(o, spec=case['spec']), **extra)
     except Exception as e:
         return dict(err=type(e).__name__, msg=str(e)[:100])
@@ -376,11 +450,27 @@ def impl(case):
         pass
 
 
+def _vardiff(a, b):
+    """dimension lengths and every variable's dimensions, shape and cells of two observations (attributes aside; a dimension
+    that no variable has is left out: netCDF keeps no length for an unlimited dimension without records)"""
+    used = set(k for v in a['vars'].values() for k in v['dims'].split('.'))
+    for k in a['dims']:
+        if k in used and a['dims'][k][0] != b['dims'].get(k, (None,))[0]:
+            return 'dimension %s: %s against %s' % (k, a['dims'][k], b['dims'].get(k))
+    for k, v in a['vars'].items():
+        w = b['vars'].get(k)
+        if w is None or (v['dims'], v['shape'], v['cells']) != (w['dims'], w['shape'], w['cells']):
+            return 'variable %s: %s against %s' % (k, (v['dims'], v['shape'], v['cells'][:80]), w and (w['dims'], w['shape'], w['cells'][:80]))
+    return None
+
+
 def _labels(n):
     return ['st%d_%s' % (i, 'abcdefgh'[i % 8] * 3) for i in range(n)]
 
 
 def _tok(sel):
+    if sel[0] == 'b':
+        return 'l' + lib.show_list(sel[1])
     if sel[0] == 'i':
         return 'i%d' % sel[1]
     if sel[0] == 's':
@@ -441,6 +531,10 @@ def oracle(case, res):
         if 'err' in res:
             return None             # windows outside the wrapper's domain (C10 compares raise / no raise with its model)
         return res.get('bad')
+    if res.get('twice_diff'):
+        return "slice_dim(f, '%s') applied twice differs from the method form applied twice: %s" % (case['text'], res['twice_diff'])
+    if res.get('disk_diff'):
+        return 'the selection on the file opened from netCDF differs from the same selection in memory: %s' % res['disk_diff']
     spec = case['spec']
     dl = {d[0]: d[1] for d in spec['dims']}
     sels = dict((k, s) for k, s in case['sels'])
